@@ -154,3 +154,18 @@ Theorem C03_source_facts :
   gen_c03_ecdh_mult_args_priv_then_remote = true.
 Proof. repeat split; try reflexivity; discriminate. Qed.
 Print Assumptions C03_source_facts.
+
+(** Identifiers and key bytes around the sites (regenerated on this run): the
+    agreement theorem assumes both ends use the same request id and each
+    other's public key AS SENT.  stream.Manager allocates request ids with a
+    single atomic Add and uses the counter in no other way (so two concurrent
+    opens never share an id and an ACK cannot complete the wrong dial), and no
+    function containing a derivation site writes to the remote public key it
+    received (masking it before salting would make the ends salt with
+    different bytes). *)
+Theorem C03_identifier_facts :
+  gen_c03_request_id_counter_is_atomic_uint64 = true /\
+  1 <= gen_c03_request_id_atomic_add_calls /\ gen_c03_request_id_other_uses = 0 /\
+  gen_c03_remote_key_writes_in_site_functions = 0.
+Proof. repeat split; try reflexivity; try (vm_compute; discriminate). Qed.
+Print Assumptions C03_identifier_facts.
